@@ -160,7 +160,12 @@ type unitCase struct {
 	Middleware  string `json:"transport_middleware,omitempty"` // e2e: pass | wrap (re-wraps resp.Body)
 	CloneClient bool   `json:"clone_client,omitempty"`         // e2e: the client is a Clone() of the configured one
 	SetCL       bool   `json:"set_content_length,omitempty"`   // e2e: h2/h3 origins declare Content-Length
-	Gzip      bool    `json:"gzip,omitempty"` // e2e: served gzip-compressed (decompressed by the transport before the charset stage)
+	Coding    string  `json:"coding,omitempty"` // e2e: served compressed with this coding AND decompressed by the transport before the charset stage
+	AutoDecompress bool `json:"auto_decompress,omitempty"` // e2e: client.EnableAutoDecompress()
+	CallerAE  string  `json:"caller_accept_encoding,omitempty"` // e2e: the request carries its own Accept-Encoding
+	Status    int     `json:"status,omitempty"`   // response status (0 = 200)
+	Location  string  `json:"location,omitempty"` // Location response header
+	NoRedirect bool   `json:"no_redirect_policy,omitempty"` // e2e high level: client.SetRedirectPolicy(NoRedirectPolicy())
 	HLMode    string  `json:"high_level_mode,omitempty"` // bytes | buffer (SetOutput(*bytes.Buffer)) | writer (SetOutput(plain io.Writer))
 }
 
@@ -283,7 +288,13 @@ func driveUnit(u *unitCase) (o obs) {
 		}()
 		sb := newScripted(u.Chunks, u.EOFLast)
 		sb.failAfter = u.FailAt
-		res := &http.Response{Header: http.Header{}, Body: sb}
+		res := &http.Response{Header: http.Header{}, Body: sb, StatusCode: 200}
+		if u.Status != 0 {
+			res.StatusCode = u.Status
+		}
+		if u.Location != "" {
+			res.Header.Set("Location", u.Location)
+		}
 		if u.Doc.CT != "" {
 			res.Header.Set("Content-Type", u.Doc.CT)
 		}
